@@ -309,6 +309,7 @@ def run(seed, tier, driver):
                 res.stats.hit('script_' + fl.split('_')[0])
     two_sessions(driver, res, r, tier)
     after_the_end(driver, res, r, tier)
+    slow_peer(driver, res, r, tier)
     handler_faults(res, r, tier)
     shipped_handler(res, r, tier)
     octet_tables(driver, res, r, tier)
@@ -373,6 +374,54 @@ def after_the_end(driver, res, r, tier):
                     res.stats.hit('after_the_end')
 
 
+def slow_peer(driver, res, r, tier):
+    """A peer that does not answer the TCP handshake for a long time: the connect-retry timer fires (once, twice, three times)
+    with attempts still in flight, then the operator stops the peer - and only THEN the old handshakes complete, oldest
+    first, each answered by the peer's OPEN; later the operator starts the peer again.  Lockstep with the model; the Monitor
+    judges C12 (one attempt at a time) and C13 (nothing is sent, nothing connects after the stop) on every step."""
+    for conf in ({}, {'connect_retry_time': 8, 'idle_hold_time': 3}, {'hold_time': 9, 'connect_retry_time': 45, 'idle_hold_time': 5}):
+        full = dict(S.DEFAULT_CFG); full.update(conf)
+        pool = dict(SG.message_pool(full['remote_as']))
+        for nretry in (1, 2, 3):
+            for stop_first in (True, False):
+                p = Pair(conf, driver, res)
+                p.step({'k': 'boot'})
+                for _ in range(nretry):
+                    w = p.sim.world
+                    times = [c.time for c in w.calls if c.time > w.now]
+                    if times and p.sim.enabled({'k': 'advance', 'dt': min(times) - w.now}):
+                        p.step({'k': 'advance', 'dt': min(times) - w.now})
+                    for nm in [S.TIMER_NAMES.get(getattr(c.func, '__name__', None)) for c in p.sim.world.due()]:
+                        if nm and p.sim.enabled({'k': 'fire', 't': nm}):
+                            p.step({'k': 'fire', 't': nm})
+                if stop_first:
+                    p.step({'k': 'stop'})
+                for c in list(p.sim.world.connectors):
+                    if p.sim.enabled({'k': 'connok', 'c': c.id}):
+                        p.step({'k': 'connok', 'c': c.id})
+                        if p.sim.enabled({'k': 'chunk', 'c': c.id}):
+                            p.step({'k': 'chunk', 'c': c.id, 'hex': pool['open_ok'].hex()})
+                        if p.sim.enabled({'k': 'chunk', 'c': c.id}):
+                            p.step({'k': 'chunk', 'c': c.id, 'hex': SG.KEEPALIVE.hex()})
+                if not stop_first:
+                    p.step({'k': 'stop'})
+                settle(p)
+                for _ in range(4):
+                    w = p.sim.world
+                    due = [S.TIMER_NAMES.get(getattr(c.func, '__name__', None)) for c in w.due()]
+                    due = [x for x in due if x]
+                    if due:
+                        p.step({'k': 'fire', 't': due[0]})
+                        continue
+                    times = [c.time for c in w.calls if c.time > w.now]
+                    if not times:
+                        break
+                    p.step({'k': 'advance', 'dt': min(times) - w.now})
+                p.step({'k': 'start'})
+                res.stats.case(('slow-peer', jdump(conf), nretry, stop_first), sample=None)
+                res.stats.hit('slow_peer')
+
+
 def two_sessions(driver, res, r, tier):
     """Two consecutive sessions whose peer OPENs differ (with / without capabilities, different hold times), each followed by
     the AS-width probes and an ordinary UPDATE: what the first session negotiated or received must not show in the second
@@ -381,7 +430,7 @@ def two_sessions(driver, res, r, tier):
         full = dict(S.DEFAULT_CFG); full.update(conf)
         pool = dict(SG.message_pool(full['remote_as']))
         opens = ['open_ok', 'open_nocaps', 'open_hold3', 'open_hold0']
-        probes = ['update_aspath4', 'update_aspath2', 'update_ok']
+        probes = ['update_aspath4', 'update_aspath2', 'update_as4path_first', 'update_ok']
         pairs = [(a, b) for a in opens for b in opens if a != b]
         if tier == 'quick':
             pairs = [('open_ok', 'open_nocaps'), ('open_nocaps', 'open_ok'), ('open_ok', 'open_hold3')] + r.sample(pairs, 2)
@@ -467,18 +516,21 @@ class _Boom(Exception):
 
 
 def handler_faults(res, r, tier):
-    """C18 only, implementation only: the application handler raises inside one of its callbacks (a collector that is down,
-    a full disk ...).  yabgp catches that; whatever it then does with the session, the counters must still equal what was
-    written to / received from the connection.  (The model has no faulty handler, so there is no lockstep here and no other
-    property is judged on these runs.)"""
-    conf = CONFIGS[0]
-    full = dict(S.DEFAULT_CFG); full.update(conf)
-    pool = dict(SG.message_pool(full['remote_as']))
+    """C18 and C12 only, implementation only: the application handler raises inside one of its callbacks (a collector that is
+    down, a full disk ...).  yabgp catches that; whatever it then does with the session, the counters must still equal what
+    was written to / received from the connection (C18), and it must not end up with two connections or attempts, or leave a
+    connection open and unreferenced (C12: bookkeeping of connections "whatever happens").  The model has no faulty handler,
+    so there is no lockstep here, and the state-machine and timer properties are not judged on these runs (Appendix C)."""
+    methods = ['send_open', 'open_received', 'keepalive_received', 'update_received', 'on_update_error', 'route_refresh_received',
+               'notification_received', 'on_established', 'on_connection_lost', 'on_connection_failed']
     script = [('connok', None), ('chunk', 'open_ok'), ('chunk', 'keepalive'), ('chunk', 'update_ok'), ('chunk', 'update_bad_origin'),
               ('chunk', 'rr'), ('chunk', 'keepalive'), ('chunk', 'notif_cease')]
-    methods = ['send_open', 'open_received', 'keepalive_received', 'update_received', 'on_update_error', 'route_refresh_received',
-               'notification_received', 'on_established', 'on_connection_lost']
-    for meth in methods:
+    # the second configuration retries before the TCP connect timeout: the first attempt is still pending (the peer is slow to
+    # answer) when the retry timer starts the next one, and the operator stops / starts while an attempt is in flight
+    for conf, slow_peer in ((CONFIGS[0], False), ({'connect_retry_time': 8, 'idle_hold_time': 3}, True)):
+      full = dict(S.DEFAULT_CFG); full.update(conf)
+      pool = dict(SG.message_pool(full['remote_as']))
+      for meth in methods:
         for nth in (1, 2):
             sim = S.Sim(conf)
             h = sim.handler
@@ -494,8 +546,8 @@ def handler_faults(res, r, tier):
                     raise _Boom('handler down')
                 return _orig(*a, **kw)
             setattr(h, meth, faulty)
-            mon = Monitor(res, conf, full)
-            mon.only = {'C18'}
+            mon = Monitor(res, dict(conf, application='a handler whose %s raises at call %d' % (meth, nth)), full)
+            mon.only = {'C18', 'C12'}
             trace = []
 
             def do(ev):
@@ -506,6 +558,20 @@ def handler_faults(res, r, tier):
                 mon.step(ev, o, sim)
                 return True
             do({'k': 'boot'})
+            if slow_peer:
+                # nobody answers the first attempt: the retry timer fires (twice), then the operator stops and starts
+                for _ in range(2):
+                    times = [c.time for c in sim.world.calls if c.time > sim.world.now]
+                    if times:
+                        do({'k': 'advance', 'dt': min(times) - sim.world.now})
+                    for nm in [S.TIMER_NAMES.get(getattr(c.func, '__name__', None)) for c in sim.world.due()]:
+                        if nm:
+                            do({'k': 'fire', 't': nm})
+                do({'k': 'stop'})
+                do({'k': 'start'})
+                # ... and now every attempt that is still believed pending by the reactor is answered, oldest first
+                for c in list(sim.world.connectors)[:-1]:
+                    do({'k': 'connok', 'c': c.id})
             for rounds in range(2):
                 cid = len(sim.world.connectors) - 1
                 for kind, label in script:
@@ -513,8 +579,11 @@ def handler_faults(res, r, tier):
                         do({'k': 'connok', 'c': cid})
                     else:
                         do({'k': 'chunk', 'c': cid, 'hex': pool[label].hex()})
-                if sim.enabled({'k': 'lost', 'c': cid}):
-                    do({'k': 'lost', 'c': cid})
+                # the reactor completes the closes the agent asked for; a connection the agent did NOT close stays open on
+                # the peer's side too (the peer has no reason to drop it) - in the first round
+                if sim.world.connectors[cid].state == 'closing' or rounds == 1:
+                    if sim.enabled({'k': 'lost', 'c': cid}):
+                        do({'k': 'lost', 'c': cid})
                 for _ in range(10):
                     w = sim.world
                     if any(c.state == 'connecting' for c in w.connectors):
@@ -528,8 +597,11 @@ def handler_faults(res, r, tier):
                     if not times:
                         break
                     do({'k': 'advance', 'dt': min(times) - w.now})
-            res.stats.case(('handler-fault', meth, nth), sample={'handler_fault': meth, 'nth': nth, 'fired': count['n'] >= nth})
+            res.stats.case(('handler-fault', meth, nth, slow_peer), sample={'handler_fault': meth, 'nth': nth, 'fired': count['n'] >= nth})
             res.stats.hit('handler_fault_' + ('fired' if count['n'] >= nth else 'not_reached'))
+    conf = CONFIGS[0]
+    full = dict(S.DEFAULT_CFG); full.update(conf)
+    pool = dict(SG.message_pool(full['remote_as']))
     # the application asks the agent to send through the handler's internal queue (BaseHandler.inter_mq): the requests are
     # carried out when the next KEEPALIVE arrives - UPDATEs and a NOTIFICATION; the counters must follow what is written
     for items in ([('update', 1)], [('update', 3)], [('update', 2), ('notification', 1)]):
